@@ -4,12 +4,19 @@
    model's algorithms: a plain functional map replayed over the history (Registry.pstep),
    declarative conditions on transcripts (firstn, no loop), and for concurrent first Gets the
    property itself (all results equal, exactly one Auto change). *)
-From SC Require Import Base.Prelude Router.Registry Router.Pump Router.Route Router.RouterGet Router.NameDefault.
+From SC Require Import Base.Prelude Router.Registry Router.Pump Router.Route Router.RouterGet Router.RouterCb Router.RegistryW Router.NameDefault.
 
 Inductive c12case :=
 | KHist (g : cfg) (first : Z) (ops : list hop) (obs : list hres) (log : list change)
 | KSched (g : cfg) (first : Z) (pre : list rop) (ths : list tkind) (sched : list nat)
          (obs : list rres) (log : list change) (final : list (string * client))
+(* as KSched, but the harness's onChange parks on entry, so callbacks are steps of the schedule
+   (RouterCb.v); cbs = the changes in the order in which onChange was entered *)
+| KSchedCb (g : cfg) (first : Z) (pre : list rop) (ths : list tkind) (sched : list nat)
+           (obs : list rres) (cbs : list change) (final : list (string * client))
+(* bare registry built from any subset of the options, every Get with its own fallback/factory
+   outcome (RegistryW.v); obs carry the number of fallback and factory calls made *)
+| KRegW (o : wopts) (ops : list wop) (obs : list wres) (log : list change)
 | KDefault (name : string) (r : request) (obs : request)
 | KDefaultStream (name : string) (recv_ok : bool) (r : request) (obs : request)
 | KDefaultSeq (name : string) (steps : list dstep) (obs : list mvalue)
@@ -33,6 +40,18 @@ Definition agrees (c : c12case) : bool :=
           && forallb (fun nc => or_nil (find (fst nc) (sreg (gst G))) =? snd nc) final
       | None => false   (* the harness only reports completed schedules *)
       end
+  | KSchedCb g first pre ths sched obs cbs final =>
+      let '(s0, _) := rrun g (init first) pre in
+      let G := cgrun g ths sched (cginit s0 ths) in
+      match cpcs_results (cpcs G) with
+      | Some rs =>
+          list_eqb rres_eqb obs rs && list_eqb change_eqb cbs (ccbs G)
+          && forallb (fun nc => or_nil (find (fst nc) (sreg (cst G))) =? snd nc) final
+      | None => false
+      end
+  | KRegW o ops obs log =>
+      let '(s, rs) := wrun o (init 1) ops in
+      list_eqb wres_eqb obs rs && list_eqb change_eqb log (wlog o s)
   | KDefault name r obs => request_eqb obs (unary_interceptor name r)
   | KDefaultStream name ok r obs => request_eqb obs (stream_recv name ok r)
   | KDefaultSeq name steps obs => list_eqb mvalue_eqb obs (run_seq name steps)
@@ -152,6 +171,73 @@ Definition sched_ok (g : cfg) (pre : list rop) (ths : list tkind) (obs : list rr
       end
   end.
 
+(* ---- callbacks under concurrency (no use of the LTS) ----
+   what each mutating call must have reported, from what it returned: Add(n, c) returning old
+   reports {n, old, c}; Remove(n) returning a client reports {n, old, nil}, returning nil nothing *)
+Fixpoint expected_cbs (ths : list tkind) (obs : list rres) : list change :=
+  match ths, obs with
+  | TAdd n c :: ths', RClient old :: obs' => mkChange n old c false :: expected_cbs ths' obs'
+  | TRemove n :: ths', RClient old :: obs' =>
+      if old =? nil_client then expected_cbs ths' obs' else mkChange n old nil_client false :: expected_cbs ths' obs'
+  | _ :: ths', _ :: obs' => expected_cbs ths' obs'
+  | _, _ => []
+  end.
+
+Fixpoint remove_all (l : list change) (from : list change) : option (list change) :=
+  match l with
+  | [] => Some from
+  | c :: l' => match remove1 c from with Some from' => remove_all l' from' | None => None end
+  end.
+
+(* every mutating call reported exactly its own transition, once; whatever else was reported is
+   an Auto change nil -> c for a client some Get of that name could have been given *)
+Definition cb_multiset_ok (g : cfg) (ths : list tkind) (obs : list rres) (newcbs : list change) : bool :=
+  match remove_all (expected_cbs ths obs) newcbs with
+  | Some rest =>
+      forallb (fun ch => cauto ch && (cold ch =? nil_client) && negb (cnew ch =? nil_client)
+                         && mem_str (cname ch) (fac_ok g)
+                         && existsb (fun k => match k with TGet m => String.eqb m (cname ch) | _ => false end) ths) rest
+  | None => false
+  end.
+
+(* no change is reported twice *)
+Fixpoint nodup_changes (l : list change) : bool :=
+  match l with
+  | [] => true
+  | c :: r => negb (existsb (change_eqb c) r) && nodup_changes r
+  end.
+
+(* "change callbacks report exactly the transitions" for concurrent committers, as the property
+   states it: WHICH transitions are reported (each committed transition exactly once, nothing else),
+   not the order in which callbacks of different threads arrive.
+   - the callbacks of the sequential prefix (one committer: program order) are the prefix's log, in order;
+   - every mutating call reported exactly its own transition, once (cb_multiset_ok, from the results alone);
+   - nothing is reported twice;
+   - all calls having returned (nothing committed is still unreported), the callbacks are a
+     permutation of the transition log (commit order; taken from RouterCb.v's run of the same
+     schedule, the harness cannot see commits) -- C12_callbacks_are_transitions;
+   - the concurrent-first-Get clause (one client for everybody, one Auto change).
+   Each thread commits at most one transition, so per-committer order inside the concurrent part is
+   the order "prefix before thread" checked by the first item.  Nothing about cross-thread order. *)
+Definition cb_ok (g : cfg) (first : Z) (pre : list rop) (ths : list tkind) (sched : list nat) (obs : list rres)
+           (cbs : list change) (final : list (string * client)) : bool :=
+  let '(p0, _) := prun g (mkP pempty [] first) pre in
+  let '(s0, _) := rrun g (init first) pre in
+  let G := cgrun g ths sched (cginit s0 ths) in
+  let newcbs := skipn (List.length (plog p0)) cbs in
+  sched_ok g pre ths obs cbs final
+  && list_eqb change_eqb (firstn (List.length (plog p0)) cbs) (plog p0)
+  && cb_multiset_ok g ths obs newcbs
+  && nodup_changes newcbs
+  && perm_eqb cbs (slog (cst G)).
+
+Definition wres_sim (a b : wres) : bool :=
+  let '(WR r1 a1 b1) := a in let '(WR r2 a2 b2) := b in rres_sim r1 r2 && (a1 =? a2) && (b1 =? b2).
+
+Definition regw_ok (o : wopts) (ops : list wop) (obs : list wres) (log : list change) : bool :=
+  let '(p, rs) := prunW o (mkP pempty [] 1) ops in
+  list_eqb wres_sim obs rs && list_eqb change_eqb log (if w_cb o then plog p else []).
+
 Definition default_ok (name : string) (applied : bool) (r obs : request) : bool :=
   match shape r with
   | NameString s =>
@@ -191,6 +277,8 @@ Definition C12_ok (c : c12case) : bool :=
       | None => false
       end
   | KSched g first pre ths sched obs log final => sched_ok g pre ths obs log final
+  | KSchedCb g first pre ths sched obs cbs final => cb_ok g first pre ths sched obs cbs final
+  | KRegW o ops obs log => regw_ok o ops obs log
   | KDefault name r obs => default_ok name true r obs
   | KDefaultStream name ok r obs => default_ok name ok r obs
   | KDefaultSeq name steps obs => seq_ok name steps obs
